@@ -365,8 +365,8 @@ def describe_exc(e):
         fn = os.path.abspath(code.co_filename)
         if fn.startswith(pdir) and fn[len(pdir):] not in ("message.py", "util.py"):
             outer = "%s:%s" % (fn[len(pdir):], code.co_name)
-    # via_run = raised on the transport thread (and handed over through saved_exception); otherwise the exception
-    # was raised in the caller's own thread, by an API call that parsed stored peer data itself
+    # via_run = propagated through Transport.run() (its handlers stored it); otherwise the exception was raised in the
+    # caller's own thread by an API call that parsed stored peer data itself, or was caught and stored by a handler
     return {"present": True, "cls": type(e).__name__, "mro": mro, "site": site, "parser": outer,
             "via_run": via_run, "text": str(e)[:160]}
 
